@@ -20,7 +20,8 @@ type store struct {
 	vers  map[string]int      // user id -> version of the user object handed out
 	extra map[string][]string // user id -> ids listed by UserSessions although no record says so
 
-	dead   bool // the process "died" at a crash point: calls from goroutines that outlive it are ignored
+	mainG  int64  // session mode: the goroutine that makes the API calls (0 = not tracked)
+	dead   bool   // the process "died" at a crash point: calls from goroutines that outlive it are ignored
 	quiet  bool // harness-internal decoding: no logging, no faults
 	inCall bool // an API call is running (otherwise calls come from background goroutines)
 
@@ -78,9 +79,19 @@ func (st *store) mutated() {
 	}
 }
 
+// foreground reports whether the call comes from the goroutine making the API calls while one is running. Calls from the
+// package's own goroutines (the clean-up after the grace period) are background events even when the scheduler happens to
+// run them before the API call has returned.
+func (st *store) foreground() bool {
+	if !st.inCall {
+		return false
+	}
+	return st.mainG == 0 || goid() == st.mainG
+}
+
 func (st *store) log(format string, args ...interface{}) {
 	line := fmt.Sprintf(format, args...)
-	if st.inCall {
+	if st.foreground() {
 		st.events = append(st.events, "ev "+line)
 	} else {
 		st.events = append(st.events, fmt.Sprintf("bg %d %s", nowRel(), line))
@@ -89,7 +100,7 @@ func (st *store) log(format string, args ...interface{}) {
 
 // fails reports whether this call is chosen to fail.
 func (st *store) fails(kind, id string) bool {
-	if st.quiet || !st.inCall {
+	if st.quiet || !st.foreground() {
 		return false
 	}
 	n := st.counts[kind+"|"+id]
@@ -155,7 +166,7 @@ func (st *store) LoadSession(id string) (*sessions.Session, error) {
 	if st.quiet {
 		return nil, nil
 	}
-	if st.dead && !st.inCall {
+	if st.dead && !st.foreground() {
 		return nil, nil
 	}
 	if st.fails("load", id) {
@@ -180,7 +191,7 @@ func (st *store) SaveSession(id string, s *sessions.Session) error {
 	if st.quiet {
 		return nil
 	}
-	if st.dead && !st.inCall {
+	if st.dead && !st.foreground() {
 		return nil
 	}
 	if st.fails("save", id) {
@@ -194,7 +205,9 @@ func (st *store) SaveSession(id string, s *sessions.Session) error {
 	}
 	st.recs[id] = b
 	st.log("save %s %s", q(id), st.renderRec(b))
-	st.mutated()
+	if st.foreground() {
+		st.mutated()
+	}
 	return nil
 }
 
@@ -202,7 +215,7 @@ func (st *store) DeleteSession(id string) error {
 	if st.quiet {
 		return nil
 	}
-	if st.dead && !st.inCall {
+	if st.dead && !st.foreground() {
 		return nil
 	}
 	if st.fails("del", id) {
@@ -211,7 +224,9 @@ func (st *store) DeleteSession(id string) error {
 	}
 	delete(st.recs, id)
 	st.log("del %s", q(id))
-	st.mutated()
+	if st.foreground() {
+		st.mutated()
+	}
 	return nil
 }
 
